@@ -1,0 +1,71 @@
+//go:build verif
+
+// Contracts for package strings, read by /verif's verifier (fovc).  Comment-only.
+// Each wrapper is specified by the SMT string-theory definition of the Go function it stands for,
+// with the pipeline-friendly argument order of the Folang signature (so a swapped argument fails).
+
+package strings
+
+//@ mode slices=value strings=smt
+
+//@ func Concat
+//@   props C14 C18
+//@   panics never
+//@   returns join_prefix(strs, sep, len(strs))
+//@   loop 0:
+//@     invariant joined: buf == join_prefix(strs, sep, i)
+
+//@ func Length
+//@   props C14
+//@   panics never
+//@   returns len(str)
+
+//@ func AppendTail
+//@   props C14 C18
+//@   panics never
+//@   returns s + tail
+
+//@ func AppendHead
+//@   props C14 C18
+//@   panics never
+//@   returns head + s
+
+//@ func HasSuffix
+//@   props C14 C18 C16 C07
+//@   panics never
+//@   returns suffixof(suffix, s)
+
+//@ func TrimSuffix
+//@   props C14 C18 C16 C07
+//@   panics never
+//@   returns ite(suffixof(suffix, s), substr(s, 0, len(s) - len(suffix)), s)
+
+//@ func HasPrefix
+//@   props C14
+//@   panics never
+//@   returns prefixof(prefix, s)
+
+//@ func EncloseWith
+//@   props C14
+//@   panics never
+//@   returns beg + center + end
+
+//@ func Split
+//@   props C14 C18
+//@   panics never
+//@   returns go_split(cont, sep)
+
+//@ func SplitN
+//@   props C14 C18
+//@   panics never
+//@   returns go_splitn(cont, sep, count)
+
+//@ func IsEmpty
+//@   props C14
+//@   panics never
+//@   returns s == ""
+
+//@ func IsNotEmpty
+//@   props C14 C18
+//@   panics never
+//@   returns s != ""
